@@ -63,6 +63,10 @@ def scenarios(tier, seed):
         dict(trial="uhf", wt="uhf", nelec=(2, 1), opts=dict(ad_mode="reverse", orbital_rotation=False), block=(2, 1, 2),
              nblocks=2, eql=(1, 1, 1)),
         dict(trial="uhf", wt="uhf", nelec=(2, 1), opts=dict(save_walkers=True), block=(1, 2, 1), nblocks=3, eql=(1, 2, 1)),
+        # every sampler entry point must restore coherence itself after the driver's QR + global reconfiguration:
+        dict(trial="uhf", wt="uhf", nelec=(2, 1), opts=dict(ad_mode="forward", orbital_rotation=False, do_sr=False), block=(3, 2, 1),
+             nblocks=3, eql=(1, 1, 1)),
+        dict(trial="uhf", wt="uhf", nelec=(2, 2), opts=dict(ad_mode="forward", do_sr=False), block=(3, 2, 1), nblocks=3, eql=(1, 1, 1)),
     ]
     if tier == "thorough":
         base += [
@@ -211,7 +215,7 @@ def run(chk: Check):
     # ---------------------------------------------------------------- spec -> code: schedule replay
     reqs, cases = [], []
     combos = [("none", True, True, (2, 2, 2)), ("forward", True, True, (2, 1, 2)), ("forward", False, True, (3, 2, 1)),
-              ("forward", True, False, (2, 2, 1))]
+              ("forward", True, False, (2, 2, 1)), ("forward", False, False, (2, 2, 1))]
     if chk.tier == "thorough":
         combos += [("none", True, True, (4, 3, 2)), ("forward", False, True, (2, 2, 2)), ("forward", True, True, (1, 3, 3)),
                    ("none", True, True, (1, 1, 1))]
@@ -228,6 +232,9 @@ def run(chk: Check):
             # SR-sensitive population: unequal weights, so the comb really duplicates / drops walkers
             import jax.numpy as jnp
             pd0["weights"] = jnp.array([0.15, 1.9, 0.7, 1.25])
+            # the stored overlaps a sampler call receives are in general STALE (the driver re-orthonormalises and
+            # reconfigures after the previous call without refreshing them): hand over deliberately wrong ones
+            pd0["overlaps"] = pd0["overlaps"] * (1.37 - 0.21j) + 0.05
             smp = S(n_prop_steps=r["steps"], n_ene_blocks=r["ene"], n_sr_blocks=r["sr"], n_blocks=1)
             o = {"ad_mode": None if r["ad_mode"] == "none" else r["ad_mode"], "orbital_rotation": r["orbital_rotation"],
                  "do_sr": r["do_sr"]}
